@@ -81,13 +81,18 @@ class Explorer:
         processes, each of which explores its share (and everything below it) to the end; counters, violations and witnesses are merged."""
         work = [((), 0)]
         while work:
-            if parallel > 1 and len(work) >= max(4, parallel // 2) and self.stats.paths >= 8:
+            if parallel > 1 and (len(work) >= 2 * parallel or (self.stats.paths >= 60 and len(work) >= 4)):
                 self._run_forked(body, work, min(parallel, len(work)))
                 self.pop_to(0)
                 return
             if self.deadline is not None and time.time() > self.deadline:
                 raise Inconclusive('wall-clock budget exhausted with %d paths pending' % len(work))
-            prefix, keep = work.pop()
+            # with workers to feed, first widen (oldest = shallowest alternative first) so that many subtrees are pending
+            if parallel > 1:
+                # out of stack order: nothing on the solver may be assumed to belong to this alternative
+                prefix, keep = work.pop(0)[0], 0
+            else:
+                prefix, keep = work.pop()
             self.pop_to(keep)
             ctx = PathCtx(self, list(prefix), keep, work)
             self.stats.paths += 1
@@ -117,7 +122,7 @@ def _forked(self, body, work, W):
         if pid == 0:
             code = 0
             try:
-                mine = work[w::W]
+                mine = [(p, 0) for p, k in work[w::W]]     # dealt out of stack order: re-assert every event
                 self.stats = Stats()
                 self.violations = []
                 self.witness = {}
